@@ -8,6 +8,7 @@ import (
 	"math"
 	"math/big"
 	"os"
+	"strconv"
 	"strings"
 	"time"
 
@@ -43,6 +44,7 @@ type Engine struct {
 	noPrune   bool
 	tier      int
 
+	forkSites map[string]int
 	nDomain int
 	nForks  int
 	nDecide int
@@ -282,6 +284,21 @@ func (e *Engine) store(st *State, p PtrVal, v Val) {
 	st.heap.set(p.obj, navSet(st.hget(p.obj), p.path, v))
 }
 
+// idxVal widens an index / length operand to 64 bits according to the
+// signedness of its static type (uint8 200 is 200, not -56).
+func (e *Engine) idxVal(st *State, fr *Frame, v ssa.Value) Val {
+	x := e.get(st, fr, v)
+	t, ok := x.(*Term)
+	if !ok || t.s.K != 'v' || t.s.W == 64 {
+		return x
+	}
+	_, signed, _ := width(v.Type())
+	if signed {
+		return SExt(t, 64)
+	}
+	return ZExt(t, 64)
+}
+
 func concInt(v Val) (int, bool) {
 	t, ok := v.(*Term)
 	if !ok || !t.IsConst() {
@@ -335,6 +352,8 @@ func (e *Engine) modelValue(st *State, t *Term) (uint64, bool) {
 	return m[t], true
 }
 
+var forkLog = os.Getenv("VF_FORKLOG") != ""
+var maxPaths, _ = strconv.Atoi(os.Getenv("VF_MAXPATHS"))
 var noModel = os.Getenv("VF_NOMODEL") != ""
 
 func (e *Engine) fetchModel() map[*Term]uint64 {
@@ -412,6 +431,19 @@ decided:
 	switch {
 	case ft && ff:
 		e.nForks++
+		if forkLog {
+			if len(st.frames) > 0 {
+				fr := st.frames[len(st.frames)-1]
+				k := fr.fn.String()
+				if fr.idx < len(fr.blk.Instrs) {
+					k += " :: " + fr.blk.Instrs[fr.idx].String()
+				}
+				if e.forkSites == nil {
+					e.forkSites = map[string]int{}
+				}
+				e.forkSites[k]++
+			}
+		}
 		st2 := st.clone()
 		st2.known.set(c, false)
 		st2.pc = append(st2.pc, Not(c))
@@ -841,6 +873,11 @@ func (e *Engine) explore(st0 *State, onEnd func(PathEnd)) {
 			}
 			e.lastProgress = time.Now()
 		}
+		if maxPaths > 0 && e.nPaths > maxPaths {
+			e.rep.note("ABORTED", "VF_MAXPATHS reached")
+			e.work = nil
+			break
+		}
 		end := e.runPath(st)
 		if end.kind != "infeasible" && end.kind != "forkall" {
 			onEnd(end)
@@ -1042,7 +1079,7 @@ func (e *Engine) exec(st *State, fr *Frame, in ssa.Instruction) bool {
 			for i, b := range s.b {
 				els[i] = b
 			}
-			fr.env[in] = e.elemAt(st, els, e.get(st, fr, in.Index), "string index")
+			fr.env[in] = e.elemAt(st, els, e.idxVal(st, fr, in.Index), "string index")
 			break
 		}
 		mp := x.(MapVal)
@@ -1072,8 +1109,8 @@ func (e *Engine) exec(st *State, fr *Frame, in ssa.Instruction) bool {
 		}
 		e.storePtr(st, ap, e.get(st, fr, in.Val))
 	case *ssa.MakeSlice:
-		n := e.needInt(st, e.get(st, fr, in.Len), "make len")
-		c := e.needInt(st, e.get(st, fr, in.Cap), "make cap")
+		n := e.needInt(st, e.idxVal(st, fr, in.Len), "make len")
+		c := e.needInt(st, e.idxVal(st, fr, in.Cap), "make cap")
 		if n < 0 || c < n {
 			abort("panic", "makeslice: len out of range")
 		}
@@ -1104,13 +1141,13 @@ func (e *Engine) exec(st *State, fr *Frame, in ssa.Instruction) bool {
 		x := e.get(st, fr, in.X)
 		switch x := x.(type) {
 		case ArrayVal:
-			fr.env[in] = e.elemAt(st, x.e, e.get(st, fr, in.Index), "array index")
+			fr.env[in] = e.elemAt(st, x.e, e.idxVal(st, fr, in.Index), "array index")
 		case StrVal:
 			els := make([]Val, len(x.b))
 			for i, b := range x.b {
 				els[i] = b
 			}
-			fr.env[in] = e.elemAt(st, els, e.get(st, fr, in.Index), "string index")
+			fr.env[in] = e.elemAt(st, els, e.idxVal(st, fr, in.Index), "string index")
 		default:
 			abort("unsupported", "index %T", x)
 		}
@@ -1330,13 +1367,13 @@ func (e *Engine) execSlice(st *State, fr *Frame, in *ssa.Slice) {
 	x := e.get(st, fr, in.X)
 	lo, hi, mx := 0, -1, -1
 	if in.Low != nil {
-		lo = e.needInt(st, e.get(st, fr, in.Low), "slice low")
+		lo = e.needInt(st, e.idxVal(st, fr, in.Low), "slice low")
 	}
 	if in.High != nil {
-		hi = e.needInt(st, e.get(st, fr, in.High), "slice high")
+		hi = e.needInt(st, e.idxVal(st, fr, in.High), "slice high")
 	}
 	if in.Max != nil {
-		mx = e.needInt(st, e.get(st, fr, in.Max), "slice max")
+		mx = e.needInt(st, e.idxVal(st, fr, in.Max), "slice max")
 	}
 	switch x := x.(type) {
 	case StrVal:
@@ -1385,7 +1422,7 @@ func (e *Engine) execSlice(st *State, fr *Frame, in *ssa.Slice) {
 
 func (e *Engine) execIndexAddr(st *State, fr *Frame, in *ssa.IndexAddr) {
 	x := e.get(st, fr, in.X)
-	idx := e.get(st, fr, in.Index)
+	idx := e.idxVal(st, fr, in.Index)
 	switch x := x.(type) {
 	case SliceVal:
 		i, ok := concInt(idx)
